@@ -664,6 +664,7 @@ func (e *Exec) formatScalar(verb byte, v Value, t types.Type) (*StrV, bool) {
 			return e.constString(fmt.Sprintf("%d", x.val)), true
 		}
 		s := e.opaqueString("fmt_int", 20, &fmtRecord{format: "%d", args: []Value{x, e.tb.Bool(signed)}})
+		e.addPCKind(e.tb.Ule(e.c64(1), s.len), 'a') // the decimal text of an integer is never empty
 		e.decStr[s.arr] = decInfo{val: x, signed: signed}
 		return s, false
 	case *SliceV:
@@ -776,6 +777,10 @@ func (e *Exec) sprintf(format string, args []Value) *fmtRecord {
 		if !p.len.IsConst() {
 			allConc = false
 		}
+	}
+	if len(pieces) == 1 {
+		rec.str = pieces[0] // keeps the meaning attached to the piece (e.g. "decimal text of x")
+		return rec
 	}
 	if allConc {
 		var bs []*Term
